@@ -275,7 +275,7 @@ func (w *advWorld) buildProduct(c advCase) (world.ClientSpec, advVerdict, bool) 
 		}
 		b := node.Creds.CertificateBundles[i]
 		chain = [][]byte{b.CertificateDer, b.CaCertificateDer}
-	case "otherleaf":
+	case "otherleaf", "otherleaf-then-named-leaf":
 		// the valid leaf (and key) of another registered node, while the request names this identity
 		i := 0
 		leafRoot = w.roots.Current
@@ -284,6 +284,14 @@ func (w *advWorld) buildProduct(c advCase) (world.ClientSpec, advVerdict, bool) 
 		}
 		b := w.B.Creds.CertificateBundles[i]
 		chain = [][]byte{b.CertificateDer, b.CaCertificateDer}
+		if c.Cert == "otherleaf-then-named-leaf" {
+			// ... and behind its own leaf the peer lists the genuine certificate of the node it names (public
+			// material): the key it proves possession of is still its own, not the named one
+			if node == nil || len(node.Creds.CertificateBundles) <= i {
+				return world.ClientSpec{}, v, false
+			}
+			chain = [][]byte{b.CertificateDer, node.Creds.CertificateBundles[i].CertificateDer, b.CaCertificateDer}
+		}
 	case "foreign":
 		leaf := world.MintLeaf(w.foreign.cert, w.foreign.root.Priv, k.Pub, world.LeafSpec{SubjectKeyID: k.Pkix, CommonName: k.KeyID, DNSNames: []string{k.KeyID}, EKU: []x509.ExtKeyUsage{x509.ExtKeyUsageClientAuth}, NotBefore: now.Add(-time.Hour), NotAfter: now.Add(24 * time.Hour)})
 		chain = [][]byte{leaf, w.foreign.cert.Raw}
@@ -326,7 +334,7 @@ func (w *advWorld) buildProduct(c advCase) (world.ClientSpec, advVerdict, bool) 
 	var signer crypto.Signer = k.Priv
 	holds := c.HoldsKey && c.Cert != "serverauth" // nobody outside the server holds the key of a server-minted certificate
 	leafPub, leafRegistered := k.Pub, c.Identity == "A"
-	if c.Cert == "otherleaf" {
+	if c.Cert == "otherleaf" || c.Cert == "otherleaf-then-named-leaf" {
 		signer = w.B.K.Priv
 		leafPub, leafRegistered = w.B.K.Pub, true
 	}
@@ -445,7 +453,7 @@ func (w *advWorld) buildProduct(c advCase) (world.ClientSpec, advVerdict, bool) 
 	// with the fetch request listed first the server handles the connection as a credential fetch
 	v.mayAuth = v.n1 && v.n2 && v.sigOK && !c.FetchMode && c.Mixed != "fetch-first"
 	v.why = fmt.Sprintf("possession=%v validroot=%v record+sig=%v", v.n1, v.n2, v.sigOK)
-	v.positive = v.mayAuth && c.Identity == "A" && c.NonceSig == "self" && c.Cert != "otherleaf" && !c.Skip && c.Pref == "valid" &&
+	v.positive = v.mayAuth && c.Identity == "A" && c.NonceSig == "self" && c.Cert != "otherleaf" && c.Cert != "otherleaf-then-named-leaf" && !c.Skip && c.Pref == "valid" &&
 		(c.StateSig == "none" || c.StateSig == "valid") && c.CN == "" && (c.Hint == "none" || (c.Hint == "match"))
 	return world.ClientSpec{Protos: protos, Chain: chain, Signer: signer}, v, true
 }
@@ -834,7 +842,29 @@ func runSeq(c *engine.Ctx, ac advCase) {
 				chain = [][]byte{world.MintSelfSigned(st.n.K, world.LeafSpec{SubjectKeyID: st.n.K.Pkix, NotBefore: now.Add(-time.Hour), NotAfter: now.Add(time.Hour), EKU: []x509.ExtKeyUsage{x509.ExtKeyUsageClientAuth}})}
 			}
 			if !st.registered && frec != nil {
-				// a credential fetch of this key (what a node without a record keeps doing: refused), and then an
+				// first: the connection attempt while the server's storage has a hiccup: the first (or second)
+				// storage operation of the handshake fails with an error that says nothing about absence. A node
+				// without a record is not authenticated on the strength of what the server saw earlier.
+				for _, pos := range []int{1, 2} {
+					nonce := world.RandBytes(nodeenrollment.NonceSize)
+					req := &types.GenerateServerCertificatesRequest{CertificatePublicKeyPkix: st.n.K.Pkix, Nonce: nonce, NonceSignature: ed25519.Sign(st.n.K.Priv, nonce)}
+					cs := world.ClientSpec{Protos: append(world.AuthProtos(req), world.CertPref(curID)), Chain: chain, Signer: st.n.K.Priv}
+					frec.Arm(pos, recstore.FaultGeneric)
+					rec, res, ok := runClient(c, lw, cs)
+					fired := frec.Fired()
+					frec.Arm(0, "")
+					if !ok {
+						return
+					}
+					c.R.Eval(fmt.Sprintf("seq %s step %d storage fault at %d", ac.Ops, step, pos), true)
+					if rec.Authenticated() {
+						c.R.Violation(fmt.Sprintf("unauthorized-auth:sequence,storage-fault,everRegistered=%v", st.everHad), fmt.Sprintf("node authenticated at step %d of %q although its record is not in storage (storage operation %d of the handshake failed with a generic error: %v)", step, ac.Ops, pos, fired), ac)
+					} else if fired {
+						c.R.Count("seq_unregistered_rejected_under_a_storage_fault", 1)
+					}
+					finishConn(rec, res)
+				}
+				// then a credential fetch of this key (what a node without a record keeps doing: refused), and then an
 				// authentication request that repeats what the fetch made the server see - same key, the fetch's nonce,
 				// the common name of an unauthorized fetch - with a signature that is no signature. Nothing a fetch
 				// handshake left behind on the listener authenticates anybody.
@@ -862,28 +892,6 @@ func runSeq(c *engine.Ctx, ac advCase) {
 						}
 						finishConn(rec, res)
 					}
-				}
-				// then, on every such step: the connection attempt while the server's storage has a hiccup: the first (or second)
-				// storage operation of the handshake fails with an error that says nothing about absence. A node
-				// without a record is not authenticated on the strength of what the server saw earlier.
-				for _, pos := range []int{1, 2} {
-					nonce := world.RandBytes(nodeenrollment.NonceSize)
-					req := &types.GenerateServerCertificatesRequest{CertificatePublicKeyPkix: st.n.K.Pkix, Nonce: nonce, NonceSignature: ed25519.Sign(st.n.K.Priv, nonce)}
-					cs := world.ClientSpec{Protos: append(world.AuthProtos(req), world.CertPref(curID)), Chain: chain, Signer: st.n.K.Priv}
-					frec.Arm(pos, recstore.FaultGeneric)
-					rec, res, ok := runClient(c, lw, cs)
-					fired := frec.Fired()
-					frec.Arm(0, "")
-					if !ok {
-						return
-					}
-					c.R.Eval(fmt.Sprintf("seq %s step %d storage fault at %d", ac.Ops, step, pos), true)
-					if rec.Authenticated() {
-						c.R.Violation(fmt.Sprintf("unauthorized-auth:sequence,storage-fault,everRegistered=%v", st.everHad), fmt.Sprintf("node authenticated at step %d of %q although its record is not in storage (storage operation %d of the handshake failed with a generic error: %v)", step, ac.Ops, pos, fired), ac)
-					} else if fired {
-						c.R.Count("seq_unregistered_rejected_under_a_storage_fault", 1)
-					}
-					finishConn(rec, res)
 				}
 			}
 			cs := world.ClientSpec{Protos: append(world.AuthProtos(req), world.CertPref(curID)), Chain: chain, Signer: st.n.K.Priv}
@@ -1058,7 +1066,7 @@ func runTLSAdv(c *engine.Ctx) engine.Result {
 	for _, wn := range []string{"normal", "both", "expired"} {
 		for _, st := range []string{world.Inmem, world.Ordered} {
 			for _, id := range []string{"A", "R", "U"} {
-				for _, cert := range []string{"cur", "next", "otherleaf", "foreign", "selfsigned", "serverauth", "stacked-ca", "stacked-leaf", "stacked-issued-by-node"} {
+				for _, cert := range []string{"cur", "next", "otherleaf", "foreign", "selfsigned", "serverauth", "stacked-ca", "stacked-leaf", "stacked-issued-by-node", "otherleaf-then-named-leaf"} {
 					if id == "U" && (cert == "cur" || cert == "next") {
 						continue
 					}
